@@ -35,6 +35,14 @@ class Raised(Exception):
         self.node = node
 
 
+class _Break(Exception):
+    pass
+
+
+class _Continue(Exception):
+    pass
+
+
 class Sym:
     """An opaque object (a manager, an exception class) that can only be
     compared for identity."""
@@ -93,9 +101,26 @@ class Machine:
                     raise Raised('IndexError', e)
             raise Unknown(f'subscript of {type(c).__name__}')
         if isinstance(e, ast.Tuple):
-            return tuple(self.ev(x) for x in e.elts)
+            return tuple(self.elements(e.elts))
+        if isinstance(e, ast.List):
+            return list(self.elements(e.elts))
+        if isinstance(e, ast.Set):
+            return set(self.elements(e.elts))
+        if isinstance(e, ast.Dict):
+            out = dict()
+            for k, v in zip(e.keys, e.values):
+                if k is None:
+                    out.update(self.ev(v))
+                else:
+                    out[self.ev(k)] = self.ev(v)
+            return out
+        if isinstance(e, (ast.ListComp, ast.SetComp, ast.DictComp,
+                          ast.GeneratorExp)):
+            return self.comprehension(e)
         if isinstance(e, ast.JoinedStr):
             return '<text>'
+        if isinstance(e, ast.Starred):
+            raise Unknown('starred')
         if isinstance(e, ast.UnaryOp):
             v = self.ev(e.operand)
             if isinstance(e.op, ast.Not):
@@ -112,6 +137,15 @@ class Machine:
                     return a - b
                 if isinstance(e.op, ast.Mult):
                     return a * b
+                if isinstance(e.op, ast.BitOr):
+                    return a | b
+                if isinstance(e.op, ast.BitAnd):
+                    return a & b
+                if isinstance(e.op, ast.Pow) and isinstance(
+                        b, int) and 0 <= b < 64:
+                    return a ** b
+                if isinstance(e.op, ast.FloorDiv) and b:
+                    return a // b
             except TypeError:
                 raise Raised('TypeError', e)
             raise Unknown(au.src(e))
@@ -168,10 +202,111 @@ class Machine:
             return self.call(e)
         raise Unknown(type(e).__name__)
 
+    def comprehension(self, e):
+        saved = dict(self.env)
+        out = []
+
+        def rec(k):
+            if k == len(e.generators):
+                if isinstance(e, ast.DictComp):
+                    out.append((self.ev(e.key), self.ev(e.value)))
+                else:
+                    out.append(self.ev(e.elt))
+                return
+            g = e.generators[k]
+            for item in self.iterate(self.ev(g.iter)):
+                self.store(g.target, item)
+                if all(self.ev(c) for c in g.ifs):
+                    rec(k + 1)
+        try:
+            rec(0)
+        finally:
+            # comprehension variables do not leak
+            for g in e.generators:
+                for x in ast.walk(g.target):
+                    if isinstance(x, ast.Name):
+                        if x.id in saved:
+                            self.env[x.id] = saved[x.id]
+                        else:
+                            self.env.pop(x.id, None)
+        if isinstance(e, ast.ListComp):
+            return out
+        if isinstance(e, ast.SetComp):
+            return set(out)
+        if isinstance(e, ast.DictComp):
+            return dict(out)
+        return out          # a generator, materialised
+
+    def iterate(self, v):
+        if isinstance(v, (set, frozenset)):
+            # the order in which a set hands out its elements is not
+            # specified: the model uses one that is not the sorted one,
+            # so a result that depends on it shows
+            try:
+                return sorted(v, reverse=True)
+            except TypeError:
+                return list(v)
+        if isinstance(v, (dict, list, tuple, range, str)):
+            return list(v)
+        if isinstance(v, (type({}.items()), type({}.keys()),
+                          type({}.values()))):
+            return list(v)
+        try:
+            return list(v)
+        except TypeError:
+            raise Unknown(f'iteration over {type(v).__name__}')
+
+    SAFE = {'set': set, 'dict': dict, 'list': list, 'tuple': tuple,
+            'frozenset': frozenset, 'sorted': sorted, 'enumerate':
+            lambda *a: list(enumerate(*a)), 'zip':
+            lambda *a: list(zip(*a)), 'range': range, 'len': len,
+            'any': any, 'all': all, 'min': min, 'max': max, 'abs': abs,
+            'int': int, 'str': str, 'bool': bool, 'sum': sum,
+            'reversed': lambda x: list(reversed(x)), 'iter': iter,
+            'next': next}
+    METHODS = {
+        dict: {'items', 'keys', 'values', 'get', 'pop', 'setdefault',
+               'update', 'copy', 'clear', 'popitem'},
+        set: {'add', 'update', 'discard', 'remove', 'issubset',
+              'issuperset', 'difference', 'union', 'intersection',
+              'difference_update', 'intersection_update', 'copy', 'pop',
+              'isdisjoint', 'clear'},
+        frozenset: {'issubset', 'issuperset', 'difference', 'union',
+                    'intersection', 'isdisjoint'},
+        list: {'append', 'extend', 'index', 'copy', 'pop', 'sort',
+               'reverse', 'insert'},
+        tuple: {'index', 'count'},
+        str: {'lower', 'upper', 'startswith', 'endswith', 'format',
+              'join', 'split', 'strip'},
+    }
+
+    def apply_callable(self, f, args, kw=None):
+        if isinstance(f, tuple) and f and f[0] == 'closure':
+            fn = f[1]
+            env = dict(self.env)
+            params = [a.arg for a in fn.args.posonlyargs + fn.args.args]
+            for p, v in zip(params, args):
+                env[p] = v
+            sub = Machine(env, self.stubs)
+            sub.steps = self.steps
+            try:
+                sub.run(fn.body)
+            except Returned as r:
+                return r.value
+            finally:
+                # closures see (and may change) the attributes of self
+                for k, v in sub.env.items():
+                    if k.startswith('self.'):
+                        self.env[k] = v
+            return None
+        if callable(f):
+            return f(*args, **(kw or {}))
+        raise Unknown('not callable')
+
     def call(self, e):
         n = au.call_name(e)
         if n in self.stubs:
-            args = [self.ev(a) for a in e.args]
+            args = self.elements(e.args)
             kw = {k.arg: self.ev(k.value) for k in e.keywords if k.arg}
             return self.stubs[n](self, e, args, kw)
         if n in EFFECT_CALLS:
@@ -182,7 +317,7 @@ class Machine:
         if n == 'len' and len(e.args) == 1:
             return len(self.ev(e.args[0]))
         if n in ('min', 'max') and e.args and not e.keywords:
-            vals = [self.ev(a) for a in e.args]
+            vals = self.elements(e.args)
             return min(vals) if n == 'min' else max(vals)
         if n == 'isinstance' and len(e.args) == 2:
             v = self.ev(e.args[0])
@@ -212,6 +347,48 @@ class Machine:
                         return self.ev(e.args[1])
                     raise Raised('KeyError', e)
                 return c.pop(k)
+        # a local function, a safe builtin, a method of a container
+        if isinstance(e.func, ast.Name):
+            args = self.elements(e.args)
+            kw = {k.arg: self.ev(k.value) for k in e.keywords if k.arg}
+            if e.func.id in self.env:
+                return self.apply_callable(self.env[e.func.id], args, kw)
+            if e.func.id in ('filter', 'map') and len(args) == 2:
+                f, xs = args
+                xs = self.iterate(xs)
+                if e.func.id == 'map':
+                    return [self.apply_callable(f, [x]) for x in xs]
+                return [x for x in xs if self.apply_callable(f, [x])]
+            if e.func.id in self.SAFE:
+                try:
+                    if 'key' in kw and isinstance(kw['key'], tuple):
+                        raise Unknown('key= closure')
+                    if e.func.id in ('list', 'tuple', 'enumerate', 'zip',
+                                     'iter', 'reversed'):
+                        args = [self.iterate(a) if isinstance(
+                            a, (set, frozenset)) else a for a in args]
+                    return self.SAFE[e.func.id](*args, **kw)
+                except (TypeError, ValueError, KeyError) as ex:
+                    raise Raised(type(ex).__name__, e)
+        if isinstance(e.func, ast.Attribute):
+            try:
+                recv = self.ev(e.func.value)
+            except Unknown:
+                recv = None
+                raise
+            for ty, names in self.METHODS.items():
+                if type(recv) is ty and e.func.attr in names:
+                    args = self.elements(e.args)
+                    kw = {k.arg: self.ev(k.value)
+                          for k in e.keywords if k.arg}
+                    try:
+                        r = getattr(recv, e.func.attr)(*args, **kw)
+                    except (KeyError, ValueError, TypeError,
+                            IndexError) as ex:
+                        raise Raised(type(ex).__name__, e)
+                    if e.func.attr in ('items', 'keys', 'values'):
+                        return list(r)
+                    return r
         raise Unknown(f'call {n}')
 
     # -------------------------------------------------------- statements
@@ -240,6 +417,15 @@ class Machine:
         for s in stmts:
             self.stmt(s)
 
+    def elements(self, elts):
+        out = []
+        for x in elts:
+            if isinstance(x, ast.Starred):
+                out.extend(self.iterate(self.ev(x.value)))
+            else:
+                out.append(self.ev(x))
+        return out
+
     def stmt(self, s):
         if isinstance(s, ast.Expr):
             if isinstance(s.value, ast.Constant):
@@ -265,6 +451,62 @@ class Machine:
             return
         if isinstance(s, ast.If):
             self.run(s.body if self.ev(s.test) else s.orelse)
+            return
+        if isinstance(s, (ast.FunctionDef,)):
+            self.env[s.name] = ('closure', s)
+            return
+        if isinstance(s, ast.For):
+            broke = False
+            for item in self.iterate(self.ev(s.iter)):
+                self.store(s.target, item)
+                try:
+                    self.run(s.body)
+                except _Break:
+                    broke = True
+                    break
+                except _Continue:
+                    continue
+            if not broke:
+                self.run(s.orelse)
+            return
+        if isinstance(s, ast.While):
+            k = 0
+            broke = False
+            while self.ev(s.test):
+                k += 1
+                if k > 2000:
+                    raise Unknown('loop limit')
+                try:
+                    self.run(s.body)
+                except _Break:
+                    broke = True
+                    break
+                except _Continue:
+                    continue
+            if not broke:
+                self.run(s.orelse)
+            return
+        if isinstance(s, ast.Break):
+            raise _Break()
+        if isinstance(s, ast.Continue):
+            raise _Continue()
+        if isinstance(s, ast.Delete):
+            for t in s.targets:
+                if isinstance(t, ast.Subscript):
+                    c = self.ev(t.value)
+                    k = self.ev(t.slice)
+                    if isinstance(c, dict):
+                        if k not in c:
+                            raise Raised('KeyError', s)
+                        del c[k]
+                        continue
+                raise Unknown('del')
+            return
+        if isinstance(s, ast.Try) and not s.handlers:
+            try:
+                self.run(s.body)
+            finally:
+                self.run(s.finalbody)
             return
         if isinstance(s, ast.Return):
             raise Returned(self.ev(s.value) if s.value is not None
